@@ -42,8 +42,11 @@ Definition gobs_eqb (a b : gobs) : bool :=
   | _, _ => false
   end.
 
+(* input of relation 2 = C07's input + the class names of the component schemas the document's operations use *)
+Definition ginput := (input * list str)%type.
 Section Inst.
-  Variable c : input.
+  Variable gc : ginput.
+  Let c := fst gc.
   Let t := fst (fst c).
   Let st := snd (fst c).
   Let doc := snd c.
@@ -61,8 +64,8 @@ Section Inst.
 
   Definition group_guards : list bool :=
     let l := parse mn cl st doc in
-    [ guard_F13a l; guard_F13b tk l ].
+    [ guard_F13a l; guard_F13b tk l; guard_F13c (snd gc) ].
 End Inst.
 
-Definition run_groups (cases : list (input * gobs)) : list N :=
+Definition run_groups (cases : list (ginput * gobs)) : list N :=
   report gobs_eqb group_model group_guards cases.
